@@ -311,10 +311,7 @@ func c07(c *core.Ctx) {
 					return
 				}
 				key := core.FuncName(fn) + ":assert(" + core.TypeStr(ta.AssertedType) + ")"
-				recv := ""
-				if fn.Signature.Recv() != nil {
-					recv = core.NamedOf(fn.Signature.Recv().Type())
-				}
+				recv := core.RecvName(fn)
 				// tabled: the JSON codec asserts its argument to proto.Message; the
 				// argument is always the generated handler's proto message.
 				codecOnly := implementsCodec(p, fn)
